@@ -19,6 +19,7 @@ type cgCase struct {
 	Alias   map[string]string   `json:"alias"`
 	Ty      string              `json:"ty"`
 	Wrap    string              `json:"wrap"`
+	Where   string              `json:"where"`
 	Target  string              `json:"target"`
 	Members []string            `json:"members"`
 	Decl    map[string][]string `json:"decl"`
@@ -75,8 +76,22 @@ func cgBuild(id int, raw json.RawMessage) *Job {
 	d.files["types2.lua"] = text["types2.lua"].String()
 	var mb strings.Builder
 	ml := 0
+	// wrapT writes the wrapper around a type name
+	wrapT := func(t string) string {
+		switch tc.Wrap {
+		case "array":
+			return t + "[]"
+		case "dict":
+			return "table<string, " + t + ">"
+		}
+		return t
+	}
+	isClass := map[string]bool{"KA": true, "KB": true, "KC": true}
 	for _, a := range []string{"X", "Y"} {
 		if t, ok := tc.Alias[a]; ok {
+			if tc.Where == "alias" && isClass[t] {
+				t = wrapT(t)
+			}
 			mb.WriteString("---@alias " + a + " " + t + "\n")
 			ml++
 		}
@@ -86,9 +101,12 @@ func cgBuild(id int, raw json.RawMessage) *Job {
 	tyx, idx := tc.Ty, ""
 	switch tc.Wrap {
 	case "array":
-		tyx, idx = tc.Ty+"[]", "[1]"
+		idx = "[1]"
 	case "dict":
-		tyx, idx = "table<string, "+tc.Ty+">", `["k"]`
+		idx = `["k"]`
+	}
+	if tc.Where != "alias" {
+		tyx = wrapT(tc.Ty)
 	}
 	mb.WriteString("---@type " + tyx + "\nlocal v = {}\n")
 	ml += 2
@@ -116,6 +134,9 @@ func cgBuild(id int, raw json.RawMessage) *Job {
 	cl := 0
 	for _, a := range []string{"X", "Y"} {
 		if t, ok := tc.Alias[a]; ok {
+			if tc.Where == "alias" && isClass[t] {
+				t = wrapT(t)
+			}
 			cb.WriteString("---@alias " + a + "c " + strings.Replace(strings.Replace(t, "X", "Xc", 1), "Y", "Yc", 1) + "\n")
 			cl++
 		}
@@ -125,11 +146,8 @@ func cgBuild(id int, raw json.RawMessage) *Job {
 		tyc += "c"
 	}
 	tyxc := tyc
-	switch tc.Wrap {
-	case "array":
-		tyxc = tyc + "[]"
-	case "dict":
-		tyxc = "table<string, " + tyc + ">"
+	if tc.Where != "alias" {
+		tyxc = wrapT(tyc)
 	}
 	cb.WriteString("\n---@type " + tyxc + "\nlocal w = {}\n")
 	cl += 3
@@ -154,7 +172,7 @@ func cgBuild(id int, raw json.RawMessage) *Job {
 func cgJudge(c *Ctx, j *Job, res *proto.Result) {
 	d := j.Data.(*cgData)
 	c.Rep.Eval(string(j.Raw))
-	desc0 := fmt.Sprintf("parents=%v shared=%v alias=%v type=%s/%s", d.tc.Parents, d.tc.Shared, d.tc.Alias, d.tc.Ty, d.tc.Wrap)
+	desc0 := fmt.Sprintf("parents=%v shared=%v alias=%v type=%s/%s(wrapper on %s)", d.tc.Parents, d.tc.Shared, d.tc.Alias, d.tc.Ty, d.tc.Wrap, d.tc.Where)
 	if res.Crash != "" || res.Hang {
 		desc := fmt.Sprintf("server died or hung on an annotation hierarchy (%s): crash=%q hang=%v at step %d", desc0, res.Crash, res.Hang, res.AtStep)
 		if surveyMode {
@@ -234,7 +252,7 @@ func firstWords(s string, n int) string {
 }
 
 func checkC15(c *Ctx) {
-	c.Rep.Rule = "ClassGraph.tla enumerates annotation hierarchies over three classes (every parent relation incl. self-loops, cycles, diamonds; a shared field name declared by any subset of classes; two aliases incl. alias chains and alias cycles) and a variable typed with a class or alias, plain, as array element or as map value; Members and Declarers are the reference closure. Each case is rendered (classes split over two files), member completion after typing 'v.' (v[1]. / v[\"k\"].) and go-to-definition on every field name are requested from a fresh real server: labels must be exactly Members, definitions must land on the ---@field line of a declaring class (nothing for non-members), and nothing may crash or hang; distinct = distinct hierarchies x queries"
+	c.Rep.Rule = "ClassGraph.tla enumerates annotation hierarchies over three classes (every parent relation incl. self-loops, cycles, diamonds; a shared field name declared by any subset of classes; two aliases incl. alias chains and alias cycles) and a variable typed with a class or alias, plain, as array element or as map value (the wrapper written on the ---@type line or inside the alias that names the class); Members and Declarers are the reference closure. Each case is rendered (classes split over two files), member completion after typing 'v.' (v[1]. / v[\"k\"].) and go-to-definition on every field name are requested from a fresh real server: labels must be exactly Members, definitions must land on the ---@field line of a declaring class (nothing for non-members), and nothing may crash or hang; distinct = distinct hierarchies x queries"
 	c.Rep.Assumptions = []string{
 		"an alias cycle denotes no type (no members)",
 		"when several reachable classes declare the shared field, any of them is an acceptable definition target",
